@@ -12,11 +12,11 @@ def names(l):
 
 
 def outcome(f):
-    """('ok', value) | ('ValueError',) | (other exception class name,)"""
+    """('ok', value) | ('ValueError', message) | (other exception class name,)"""
     try:
         return ('ok', f())
-    except ValueError:
-        return ('ValueError',)
+    except ValueError as e:
+        return ('ValueError', str(e))
     except Exception as e:  # noqa: BLE001 - the class is the observable
         return (type(e).__name__,)
 
@@ -69,6 +69,14 @@ def check_ctor(run, objs, props, rows, tag):
     run.count('ctor ' + res[0])
     if res[0] != want:
         run.fail('Context(%r, %r, %r) [%s]' % (objs, props, cells, tag), res[0], want, [req])
+    if res[0] == 'ValueError' and res[1].startswith('objects and properties overlap:'):
+        import ast
+        listed = ast.literal_eval(res[1].split(':', 1)[1].strip())
+        rq = 'overlap %s %s' % (names(objs), names(props))
+        wanted = d.ask(rq)
+        if names(list(listed)) != wanted:
+            run.fail('names listed in the overlap error of Context(%r, %r, ...)' % (objs, props), list(listed), wanted, [rq])
+        run.count('overlap messages')
     if res[0] == 'ok':
         ctx = res[1]
         with guard(run, 'objects/properties/bools of an accepted context', [req]):
